@@ -398,4 +398,276 @@ theorem metaAt_decl (m0 : Nat) (mid qs name close rest : Bytes)
   simp only [litMeta, List.cons_append, List.nil_append, List.drop_succ_cons, List.drop_zero, hm0', Bool.false_eq_true, if_false]
   exact lastCharset_append_some mid _ name hmid hCS
 
+/-! ## nothing is found without the markers -/
+
+/-- some `<` in the text is followed (after optional white space) by `meta`, in any case -/
+def hasMetaOpen : Bytes → Bool
+  | [] => false
+  | c :: t => (c == 60 && startsCI litMeta (t.dropWhile isSpace)) || hasMetaOpen t
+
+/-- `lit` occurs in `l`, ignoring case -/
+def containsCI (lit : Bytes) : Bytes → Bool
+  | [] => startsCI lit []
+  | c :: t => startsCI lit (c :: t) || containsCI lit t
+
+theorem htmlSearch_none_of_no_meta (w : Bytes) (h : hasMetaOpen w = false) : htmlSearch w = none := by
+  induction w with
+  | nil => rfl
+  | cons c t ih =>
+    simp only [hasMetaOpen, Bool.or_eq_false_iff, Bool.and_eq_false_iff] at h
+    rw [htmlSearch]
+    by_cases hc : (c == 60) = true
+    · simp only [hc, if_true]
+      have hs : startsCI litMeta (t.dropWhile isSpace) = false := by
+        rcases h.1 with h1 | h1
+        · rw [hc] at h1; cases h1
+        · exact h1
+      have : metaAt t = none := by simp [metaAt, hs]
+      rw [this]
+      exact ih h.2
+    · simp only [hc, Bool.false_eq_true, if_false]
+      exact ih h.2
+
+theorem lastCharset_none_of_no_charset (l : Bytes) (h : containsCI litCharset l = false) : lastCharset l = none := by
+  induction l with
+  | nil => rfl
+  | cons c t ih =>
+    simp only [containsCI, Bool.or_eq_false_iff] at h
+    have hh : charsetHere (c :: t) = none := by simp [charsetHere, h.1]
+    rw [lastCharset]
+    by_cases hc : (c == 62) = true
+    · simp [hc, hh]
+    · simp only [hc, Bool.false_eq_true, if_false, ih h.2, hh]
+
+theorem containsCI_drop (lit l : Bytes) (n : Nat) (h : containsCI lit l = false) (hl : lit ≠ []) :
+    containsCI lit (l.drop n) = false := by
+  induction n generalizing l with
+  | zero => simpa using h
+  | succ k ih =>
+    cases l with
+    | nil => simpa using h
+    | cons c t =>
+      simp only [containsCI, Bool.or_eq_false_iff] at h
+      simpa using ih t h.2
+
+theorem containsCI_dropWhile (lit l : Bytes) (p : Nat → Bool) (h : containsCI lit l = false) :
+    containsCI lit (l.dropWhile p) = false := by
+  induction l with
+  | nil => simpa using h
+  | cons c t ih =>
+    simp only [List.dropWhile_cons]
+    split
+    · simp only [containsCI, Bool.or_eq_false_iff] at h
+      exact ih h.2
+    · exact h
+
+theorem htmlSearch_none_of_no_charset (w : Bytes) (h : containsCI litCharset w = false) : htmlSearch w = none := by
+  induction w with
+  | nil => rfl
+  | cons c t ih =>
+    have ht : containsCI litCharset t = false := by
+      simp only [containsCI, Bool.or_eq_false_iff] at h; exact h.2
+    rw [htmlSearch]
+    have hm : metaAt t = none := by
+      unfold metaAt
+      dsimp only
+      split
+      · have h1 := containsCI_dropWhile litCharset t isSpace ht
+        have h2 := containsCI_drop litCharset _ 4 h1 (by decide)
+        cases hd : (t.dropWhile isSpace).drop 4 with
+        | nil => rfl
+        | cons x u =>
+          rw [hd] at h2
+          simp only [containsCI, Bool.or_eq_false_iff] at h2
+          simp only [lastCharset_none_of_no_charset u h2.2]
+          split <;> rfl
+      · rfl
+    simp only [hm, ih ht]
+    split <;> rfl
+
+theorem lastEncoding_none_of_no_encoding (l : Bytes) (h : containsCI litEncodingEq l = false) : lastEncoding l = none := by
+  induction l with
+  | nil => rfl
+  | cons c t ih =>
+    simp only [containsCI, Bool.or_eq_false_iff] at h
+    have hh : encHere (c :: t) = none := by simp [encHere, h.1]
+    simp only [lastEncoding, ih h.2, hh]
+
+/-! ## the general well-formed shapes (conditions in terms of `containsCI`) -/
+
+theorem lastEncoding_decl_gen (name after : Bytes) (q1 q2 : Nat) (hq1 : isQuote q1 = true) (hq2 : isQuote q2 = true)
+    (hn : ∀ c ∈ name, isQuote c = false) (hqm : containsQmGt after = true)
+    (hno : containsCI litEncodingEq (name ++ q2 :: after) = false) :
+    lastEncoding (litEncodingEq ++ q1 :: (name ++ q2 :: after)) = some name := by
+  have hq1e : lowerC q1 ≠ 101 := by
+    simp only [isQuote, Bool.or_eq_true, beq_iff_eq] at hq1
+    rcases hq1 with rfl | rfl <;> decide
+  have step : ∀ (c : Nat) (t : Bytes), lowerC c ≠ 101 → lastEncoding t = none → lastEncoding (c :: t) = none := by
+    intro c t hc ht
+    rw [lastEncoding_cons_of_tail_none c t ht, encHere_none_of_head c t hc]
+  have htail := step q1 _ hq1e (lastEncoding_none_of_no_encoding _ hno)
+  have h8 := step 61 _ (by decide) htail
+  have h7 := step 103 _ (by decide) h8
+  have h6 := step 110 _ (by decide) h7
+  have h5 := step 105 _ (by decide) h6
+  have h4 := step 100 _ (by decide) h5
+  have h3 := step 111 _ (by decide) h4
+  have h2 := step 99 _ (by decide) h3
+  have h1 := step 110 _ (by decide) h2
+  show lastEncoding (101 :: 110 :: 99 :: 111 :: 100 :: 105 :: 110 :: 103 :: 61 :: q1 :: (name ++ q2 :: after)) = some name
+  rw [lastEncoding_cons_of_tail_none _ _ h1]
+  have hs : startsCI litEncodingEq (101 :: 110 :: 99 :: 111 :: 100 :: 105 :: 110 :: 103 :: 61 :: q1 :: (name ++ q2 :: after)) = true := by
+    simp [startsCI, litEncodingEq, lowerC]
+  simp only [encHere, hs, if_true, List.drop_succ_cons, List.drop_zero, hq1]
+  rw [lazyQuote_name name _ [] q2 hq2 hn hqm]
+  simp
+
+/-- `xmlMatch` on: white space, `<?`, anything without newline, `encoding=`, quoted name, then a rest of
+    the line that contains `?>` and no further `encoding=`, then end of input or a newline — all within
+    the first 1024 bytes. -/
+theorem xmlMatch_decl_gen (ws pre name after tail : Bytes) (q1 q2 : Nat)
+    (hws : ∀ c ∈ ws, isSpace c = true) (hpre : ∀ c ∈ pre, c ≠ 10)
+    (hq1 : isQuote q1 = true) (hq2 : isQuote q2 = true)
+    (hn : ∀ c ∈ name, isQuote c = false ∧ c ≠ 10)
+    (ha : ∀ c ∈ after, c ≠ 10) (hqm : containsQmGt after = true)
+    (hno : containsCI litEncodingEq (name ++ q2 :: after) = false)
+    (ht : tail = [] ∨ ∃ r, tail = 10 :: r)
+    (hlen : (ws ++ 60 :: 63 :: (pre ++ (litEncodingEq ++ q1 :: (name ++ q2 :: after)))).length ≤ 1024) :
+    xmlMatch (ws ++ 60 :: 63 :: (pre ++ (litEncodingEq ++ q1 :: (name ++ q2 :: after))) ++ tail) = some name := by
+  unfold xmlMatch
+  rw [take_append_le _ _ _ hlen]
+  generalize htk : tail.take (1024 - _) = tail'
+  have ht' : tail' = [] ∨ ∃ c r, tail' = c :: r ∧ (c != 10) = false := by
+    rcases ht with rfl | ⟨r, rfl⟩
+    · left; simpa using htk.symm
+    · cases hk : 1024 - (ws ++ 60 :: 63 :: (pre ++ (litEncodingEq ++ q1 :: (name ++ q2 :: after)))).length with
+      | zero => left; rw [hk] at htk; simpa using htk.symm
+      | succ k => right; rw [hk] at htk; exact ⟨10, r.take k, by simpa using htk.symm, by decide⟩
+  rw [List.append_assoc, dropWhile_append_all isSpace ws _ hws]
+  simp only [List.cons_append, List.dropWhile_cons]
+  have h60 : isSpace 60 = false := by decide
+  simp only [h60, Bool.false_eq_true, if_false]
+  have hq1' : q1 ≠ 10 := by intro h; rw [h] at hq1; simp [isQuote] at hq1
+  have hq2' : q2 ≠ 10 := by intro h; rw [h] at hq2; simp [isQuote] at hq2
+  rw [takeWhile_append_stop (· != 10) _ tail' ?_ ht']
+  · apply lastEncoding_append_some
+    exact lastEncoding_decl_gen name after q1 q2 hq1 hq2 (fun c hc => (hn c hc).1) hqm hno
+  · intro c hc
+    simp only [litEncodingEq, List.mem_append, List.mem_cons, List.not_mem_nil, or_false] at hc
+    simp only [bne_iff_ne, ne_eq]
+    rcases hc with hc | hc
+    · exact hpre c hc
+    · rcases hc with (rfl | rfl | rfl | rfl | rfl | rfl | rfl | rfl | rfl) | rfl | hc | rfl | hc
+      all_goals first | decide | exact hq1' | exact hq2' | exact (hn c hc).2 | exact ha c hc
+
+theorem startsCI_append_stop (lit sfx r : Bytes) (hl : ∀ a ∈ lit, a ≠ 62)
+    (h : startsCI lit (sfx ++ 62 :: r) = true) : startsCI lit sfx = true := by
+  induction lit generalizing sfx with
+  | nil => rfl
+  | cons a as ih =>
+    cases sfx with
+    | nil =>
+      simp only [List.nil_append, startsCI, Bool.and_eq_true, beq_iff_eq] at h
+      have : lowerC 62 = 62 := by decide
+      rw [this] at h
+      exact absurd h.1.symm (hl a List.mem_cons_self)
+    | cons b bs =>
+      simp only [List.cons_append, startsCI, Bool.and_eq_true] at h ⊢
+      exact ⟨h.1, ih bs (fun x hx => hl x (List.mem_cons_of_mem _ hx)) h.2⟩
+
+/-- no `charset` before the first `>`: nothing matches there -/
+theorem lastCharset_none_before_gt (l r : Bytes) (h62 : ∀ c ∈ l, c ≠ 62) (h : containsCI litCharset l = false) :
+    lastCharset (l ++ 62 :: r) = none := by
+  induction l with
+  | nil =>
+    simp only [List.nil_append, lastCharset, beq_self_eq_true, if_true]
+    simp [charsetHere, startsCI, litCharset, lowerC]
+  | cons c t ih =>
+    simp only [containsCI, Bool.or_eq_false_iff] at h
+    have hc : (c == 62) = false := by simpa using h62 c List.mem_cons_self
+    have hh : charsetHere ((c :: t) ++ 62 :: r) = none := by
+      have : startsCI litCharset ((c :: t) ++ 62 :: r) = false := by
+        cases hs : startsCI litCharset ((c :: t) ++ 62 :: r) with
+        | false => rfl
+        | true =>
+          have := startsCI_append_stop litCharset (c :: t) r (by decide) hs
+          rw [h.1] at this; cases this
+      unfold charsetHere
+      rw [this]
+      rfl
+    simp only [List.cons_append, lastCharset, hc, Bool.false_eq_true, if_false,
+      ih (fun x hx => h62 x (List.mem_cons_of_mem _ hx)) h.2]
+    exact hh
+
+/-- the whole tag, general form: `meta`, at least one character, anything without `>`, `charset=`,
+    value, then anything without `>` in which `charset` does not occur again -/
+theorem metaAt_decl_gen (m0 : Nat) (mid qs name close rest : Bytes)
+    (hm0 : m0 ≠ 62) (hmid : ∀ c ∈ mid, c ≠ 62)
+    (hqs : qs = [] ∨ ∃ q, qs = [q] ∧ isQuote q = true) (hne : name ≠ [])
+    (hn : ∀ c ∈ name, isTerm c = false ∧ isSpace c = false)
+    (hclose : ∀ c ∈ close, c ≠ 62)
+    (hno : containsCI litCharset (qs ++ name ++ close) = false)
+    (hterm : close = [] ∨ ∃ t r, close = t :: r ∧ isTerm t = true) :
+    metaAt (litMeta ++ m0 :: (mid ++ (litCharset ++ 61 :: (qs ++ (name ++ (close ++ 62 :: rest)))))) = some name := by
+  have hm0' : (m0 == 62) = false := by simpa using hm0
+  have hqne : ∀ q, isQuote q = true → q ≠ 62 := by
+    intro q hq
+    simp only [isQuote, Bool.or_eq_true, beq_iff_eq] at hq
+    rcases hq with rfl | rfl <;> decide
+  have hn62 : ∀ c ∈ name, c ≠ 62 := by
+    intro c hc h62; subst h62
+    have := (hn 62 hc).1; revert this; decide
+  obtain ⟨t, more, hsplit, ht⟩ : ∃ t more, close ++ 62 :: rest = t :: more ∧ isTerm t = true := by
+    rcases hterm with rfl | ⟨t, r, rfl, ht⟩
+    · exact ⟨62, rest, rfl, by decide⟩
+    · exact ⟨t, r ++ 62 :: rest, rfl, ht⟩
+  have hval : htmlValue (qs ++ (name ++ (close ++ 62 :: rest))) = some name := by
+    rw [hsplit]
+    exact htmlValue_name qs name more t ht hqs hne hn
+  have hV : lastCharset (qs ++ (name ++ (close ++ 62 :: rest))) = none := by
+    have : qs ++ (name ++ (close ++ 62 :: rest)) = (qs ++ name ++ close) ++ 62 :: rest := by simp
+    rw [this]
+    apply lastCharset_none_before_gt _ _ _ hno
+    intro c hc
+    simp only [List.mem_append] at hc
+    rcases hc with (hc | hc) | hc
+    · rcases hqs with rfl | ⟨q, rfl, hq⟩
+      · cases hc
+      · simp only [List.mem_singleton] at hc; subst hc; exact hqne c hq
+    · exact hn62 c hc
+    · exact hclose c hc
+  have step : ∀ (c : Nat) (l : Bytes), c ≠ 62 → lowerC c ≠ 99 → lastCharset l = none → lastCharset (c :: l) = none := by
+    intro c l h1 h2 h3
+    have h1' : (c == 62) = false := by simpa using h1
+    simp only [lastCharset, h1', Bool.false_eq_true, if_false, h3]
+    simp [charsetHere, startsCI, litCharset, h2]
+  have h7 := step 61 _ (by decide) (by decide) hV
+  have h6 := step 116 _ (by decide) (by decide) h7
+  have h5 := step 101 _ (by decide) (by decide) h6
+  have h4 := step 115 _ (by decide) (by decide) h5
+  have h3 := step 114 _ (by decide) (by decide) h4
+  have h2 := step 97 _ (by decide) (by decide) h3
+  have h1 := step 104 _ (by decide) (by decide) h2
+  have hCS : lastCharset (litCharset ++ 61 :: (qs ++ (name ++ (close ++ 62 :: rest)))) = some name := by
+    show lastCharset (99 :: 104 :: 97 :: 114 :: 115 :: 101 :: 116 :: 61 :: (qs ++ (name ++ (close ++ 62 :: rest)))) = some name
+    have h99 : ((99 : Nat) == 62) = false := by decide
+    simp only [lastCharset, h99, Bool.false_eq_true, if_false] at h1 ⊢
+    rw [h1]
+    have hs : startsCI litCharset (99 :: 104 :: 97 :: 114 :: 115 :: 101 :: 116 :: 61 :: (qs ++ (name ++ (close ++ 62 :: rest)))) = true := by
+      simp [startsCI, litCharset, lowerC]
+    simp only [charsetHere, hs, if_true, List.drop_succ_cons, List.drop_zero, List.dropWhile_cons]
+    have h61 : isSpace 61 = false := by decide
+    simp only [h61, Bool.false_eq_true, if_false]
+    exact hval
+  unfold metaAt
+  have hnosp : (litMeta ++ m0 :: (mid ++ (litCharset ++ 61 :: (qs ++ (name ++ (close ++ 62 :: rest)))))).dropWhile isSpace
+      = litMeta ++ m0 :: (mid ++ (litCharset ++ 61 :: (qs ++ (name ++ (close ++ 62 :: rest))))) := by
+    simp [litMeta, isSpace]
+  simp only [hnosp]
+  have hs : startsCI litMeta (litMeta ++ m0 :: (mid ++ (litCharset ++ 61 :: (qs ++ (name ++ (close ++ 62 :: rest)))))) = true := by
+    simp [startsCI, litMeta, lowerC]
+  simp only [hs, if_true]
+  simp only [litMeta, List.cons_append, List.nil_append, List.drop_succ_cons, List.drop_zero, hm0', Bool.false_eq_true, if_false]
+  exact lastCharset_append_some mid _ name hmid hCS
+
 end BS.EncodingIn
